@@ -387,8 +387,10 @@ func (c09child) redir(mode string) string {
 	if mode != "k" && mode != "d" && mode != "n" && mode != "h" && mode != "f" && mode != "g" && mode != "a" {
 		return "bad-op"
 	}
-	// a: like f, but node A answers ASK (the resend is a group of two: ASKING and the command) and node B is a configured host too,
-	// so the session sends half of the requests to B itself and waits there for room, in the way of the groups
+	// a: the routing table is loaded: node B (silent) owns every slot but that of key "ka", which node A owns and answers ASK for.  One
+	// client's MGET fills B's queue — its session waits there for room, holding the turn on B's connection; a second client's GET ka
+	// is answered ASK by A, whose read loop resends ASKING + GET as a group to B's connection and waits for the turn.  Then node A is
+	// removed from the service (that stops A's connection whatever order Stop would take), then Stop.
 	full := mode == "f" || mode == "g" || mode == "a"
 	var bGot int32
 	baseG := runtime.NumGoroutine()
@@ -457,9 +459,21 @@ func (c09child) redir(mode string) string {
 		defer lnB.Close()
 		addrB = lnB.Addr().String()
 	}
+	// mode a: the routing table is loaded — node A owns the slot of key "ka" only and answers ASK for it, node B owns every other slot
+	kaSlot := hx.SlotOf([]byte("ka"))
+	nodesA := func() string {
+		t := fmt.Sprintf("ida %s@1 master - 0 0 1 connected %d\nidb %s@1 master - 0 0 1 connected 0-%d %d-16383\n", lnA.Addr().String(), kaSlot, addrB, kaSlot-1, kaSlot+1)
+		return fmt.Sprintf("$%d\r\n%s\r\n", len(t), t)
+	}
 	go serveNode(lnA, func(cmd string) string {
+		if mode == "a" && cmd == "cluster" {
+			return nodesA()
+		}
+		if mode == "a" && cmd == "readonly" {
+			return "+OK\r\n"
+		}
 		if cmd == "get" && mode == "a" {
-			return "-ASK 1 " + addrB + "\r\n"
+			return fmt.Sprintf("-ASK %d %s\r\n", kaSlot, addrB)
 		}
 		if cmd == "get" {
 			return "-MOVED 1 " + addrB + "\r\n"
@@ -471,6 +485,12 @@ func (c09child) redir(mode string) string {
 		bDelay = 200 * time.Millisecond
 	}
 	replyB := func(cmd string) string {
+		if mode == "a" && cmd == "cluster" {
+			return nodesA()
+		}
+		if mode == "a" && cmd == "readonly" {
+			return "+OK\r\n"
+		}
 		if full {
 			atomic.AddInt32(&bGot, 1)
 			return ""
@@ -562,13 +582,17 @@ func (c09child) redir(mode string) string {
 		// one MGET of 2100 keys: 2100 GETs to A, each answered MOVED to B, which reads and never answers. With 2049 of them
 		// outstanding on B's connection (its two queues and the one in its writer's hand) the read loop of A's connection waits
 		// in B's Send.  f: Stop;  g: node A is removed from the service first.
+		if mode == "a" {
+			time.Sleep(150 * time.Millisecond) // the routing table is loaded right after start
+		}
 		args := [][]byte{[]byte("mget")}
 		nkeys := 2100
-		if mode == "a" {
-			nkeys = 6000 // about half of them go to B directly
-		}
-		for i := 0; i < nkeys; i++ {
-			args = append(args, []byte(fmt.Sprintf("k%d", i)))
+		for i := 0; len(args) <= nkeys; i++ {
+			k := []byte(fmt.Sprintf("k%d", i))
+			if mode == "a" && hx.SlotOf(k) == kaSlot {
+				continue // (mode a: every key of the MGET belongs to node B; the session itself waits for room in B's queue)
+			}
+			args = append(args, k)
 		}
 		if err := cl.Write(args...); err != nil {
 			p.Stop()
@@ -589,8 +613,17 @@ func (c09child) redir(mode string) string {
 			p.Stop()
 			return "not-parked"
 		}
+		if mode == "a" {
+			// a second client asks for ka: node A answers ASK, the read loop of A's connection resends ASKING and the GET as a
+			// group to B's connection — whose turn the first client's session holds while it waits for room
+			if c2, err := hx.DialClient(p.Address()); err == nil {
+				defer c2.C.Close()
+				c2.Write([]byte("get"), []byte("ka"))
+			}
+			time.Sleep(250 * time.Millisecond)
+		}
 		res := "ok"
-		if mode == "g" {
+		if mode == "g" || mode == "a" { // (a: the removal of node A stops A's connection whatever the order in which Stop would take them)
 			rmDone := make(chan struct{})
 			go func() { p.OnSvcHostRemove([]*host.Host{host.New(lnA.Addr().String())}); close(rmDone) }()
 			select {
